@@ -207,7 +207,7 @@ PROPS = {
     "C15": {
         "title": "Both endpoints always agree on whether compression is in use",
         "level": "exploration",
-        "rule": "three legs. pair: a real Dialer and a real Upgrader are connected through scripted transports (the Upgrader runs on the request bytes the Dialer wrote; the client reads the 101 bytes the server wrote) for all 4 EnableCompression combinations; 1-6 messages of generated sizes flow in both directions with EnableWriteCompression / SetCompressionLevel(-2..9) changes on the sender before a message or in the middle of a message written through NextWriter (the open message keeps its framing), and receivers that sometimes read only a prefix. server: Upgrader against a scripted client with 18 extension offers (absent, parameters, quoted strings, other extensions first, several lines, near-miss names, malformed). client: Dialer against a scripted 101 with 16 announcement variants (none, each no_context_takeover parameter missing, extra parameters, other extensions, near-miss names). Observable 'compresses' = RSV1 on a data frame (independent decoder + RFC 7692 inflate); 'accepts' = a scripted RSV1 message (independent deflater) is decoded rather than failing the connection. Oracle: every message is received intact by the other side under every toggle history; RSV1 appears only if the 101 announced permessage-deflate with both parameters, which happens only if both sides enabled it (server: iff enabled and cleanly offered); an announcement lacking a parameter makes Dial fail; scripted RSV1 messages are accepted iff negotiated, uncompressed ones always. Non-trivial = off-diagonal settings, offers/announcements given, or >=1 toggle; the fraction of cases with RSV1 observed is reported.",
+        "rule": "three legs. pair: a real Dialer and a real Upgrader are connected through scripted transports (the Upgrader runs on the request bytes the Dialer wrote; the client reads the 101 bytes the server wrote) for all 4 EnableCompression combinations; 1-6 messages of generated sizes flow in both directions with EnableWriteCompression / SetCompressionLevel(-2..9) changes on the sender before a message or in the middle of a message written through NextWriter (the open message keeps its framing), and receivers that sometimes read only a prefix or leave a message half-read while the next message flows in the opposite direction (both endpoints of the process inside a message at once). server: Upgrader against a scripted client with 22 extension offers (absent, parameters, quoted strings, other extensions first, several lines, near-miss names, malformed) or a composed offer (1-4 well-formed elements, permessage-deflate at any position, spread over 1-3 header lines). client: Dialer against a scripted 101 with 16 announcement variants (none, each no_context_takeover parameter missing, extra parameters, other extensions, near-miss names) or a composed announcement of the same shape. Observable 'compresses' = RSV1 on a data frame (independent decoder + RFC 7692 inflate); 'accepts' = a scripted RSV1 message (independent deflater) is decoded rather than failing the connection. Oracle: every message is received intact by the other side under every toggle history; RSV1 appears only if the 101 announced permessage-deflate with both parameters, which happens only if both sides enabled it (server: iff enabled and cleanly offered); an announcement lacking a parameter makes Dial fail; scripted RSV1 messages are accepted iff negotiated, uncompressed ones always. Non-trivial = off-diagonal settings, offers/announcements given, or >=1 toggle; the fraction of cases with RSV1 observed is reported.",
         "assumptions": TRUST + ["malformed offers are unspecified except that text inside a quoted-string is never an extension name; for an unsolicited complete announcement the client may refuse the handshake but, if Dial succeeds, must accept compressed messages (agreement)"],
         "level_text": "Bounded random exploration of the configuration matrix, offer/announcement grammars and toggle histories with an independent codec as observer.",
         "level_note": "Compression is observed on the wire, not through library state.",
